@@ -101,6 +101,7 @@ func main() {
 	timeout := flag.Int("timeout-ms", 20000, "per-query solver timeout")
 	verbose := flag.Bool("v", false, "verbose")
 	params := flag.String("params", "", "comma-separated name=int harness parameters (verifParam)")
+	keepGoing := flag.Bool("keep-going", false, "keep exploring after the first violation outside known-finding regions")
 	maxTime := flag.Int("max-time", 0, "stop exploring after this many seconds (result is then inconclusive)")
 	ignoreGo := flag.Bool("ignore-go", false, "ignore go statements instead of ending the path")
 	pin := flag.String("pin", "", "json file name→value pinning nondet values (concrete run)")
@@ -113,7 +114,7 @@ func main() {
 
 	cfg := &Config{Unwind: *unwind, MaxSteps: *maxSteps, MaxAlloc: *maxAlloc, MaxPaths: *maxPaths, MaxDepth: *maxDepth,
 		MaxValues: *maxValues, Workers: *workers, Solver: *solver, TimeoutMs: *timeout, Verbose: *verbose, IgnoreGo: *ignoreGo,
-		Overrides: map[string]string{}, MaxTimeS: *maxTime}
+		Overrides: map[string]string{}, MaxTimeS: *maxTime, KeepGoing: *keepGoing}
 	if *cross != "" {
 		for _, c := range strings.Split(*cross, ",") {
 			if c != *solver {
